@@ -480,7 +480,9 @@ class EngineBase:
             r = self.contains(s, b, a)
             return r if isinstance(op, ast.In) else z3.Not(r)
         if isinstance(op, (ast.Lt, ast.LtE, ast.Gt, ast.GtE)):
-            x, y = Val.i(a.t), Val.i(b.t)
+            # bool is a subclass of int (True == 1): ordering comparisons see its integer value
+            iv = lambda v: Val.i(v.t) if v.ty.kind == "int" else z3.If(Val.is_bool(v.t), z3.If(Val.b(v.t), 1, 0), Val.i(v.t))
+            x, y = iv(a), iv(b)
             return {ast.Lt: x < y, ast.LtE: x <= y, ast.Gt: x > y, ast.GtE: x >= y}[type(op)]
         raise Untranslatable("compare op")
 
@@ -526,7 +528,29 @@ class EngineBase:
     def ev_Subscript(self, e, st):
         out = []
         if isinstance(e.slice, ast.Slice):
-            raise Untranslatable("slice")
+            sl = e.slice
+            if sl.step is not None or (sl.lower is not None and not (isinstance(sl.lower, ast.Constant) and sl.lower.value == 0)):
+                raise Untranslatable("slice with lower bound / step")
+            exprs = [e.value] + ([sl.upper] if sl.upper is not None else [])
+            for (s, vals, exc) in self.eval_many(exprs, st):
+                if exc is not None:
+                    out.append(Res(s, None, exc))
+                    continue
+                src = vals[0]
+                if strip_opt(src.ty).kind != "list":
+                    raise Untranslatable(f"slice of {src.ty}")
+                a = Val.a(src.t)
+                ln = s.l_len(a)
+                if len(vals) > 1:
+                    u = Val.i(vals[1].t)
+                    eff = z3.If(u < 0, z3.If(ln + u < 0, 0, ln + u), z3.If(u < ln, u, ln))
+                else:
+                    eff = ln
+                # prefix slice: a new list with the first `eff` items of the source
+                b = s.new_list(z3.Select(s.heap["l_item"], a), eff)
+                s.assume(ln >= 0)
+                out.append(Res(s, SV(vref(b), strip_opt(src.ty))))
+            return out
         for (s, vals, exc) in self.eval_many([e.value, e.slice], st):
             if exc is not None:
                 out.append(Res(s, None, exc))
